@@ -30,6 +30,12 @@ theorem fact_rollback_reload_context : Facts.C08.rollbackReloadContexts = ["cont
 theorem fact_add_critical_section :
     Facts.C08.addMutexCalls = ["s.addMutex.Lock"] ∧ Facts.C08.addFirstAfterCommit = ["unlock"] ∧
     "unlock()" ∈ Facts.C08.addDefers := by decide
+/-- `addMutex` is held from before `db.Write` (taken at the top level of `Add`, not inside the write closure) until after
+    the commit or — on failure — until `Add` returns (`defer`), i.e. after ALL rollback handlers have run; the only
+    rollback handler is the reload (no handler that releases the mutex in front of it) -/
+theorem fact_add_mutex_spans_rollback_reload :
+    Facts.C08.addMutexShape = ["Lock:top-level:before-db.Write", "defer:top-level:unlock()"] ∧
+    Facts.C08.addRollbackHandlers = ["func:s.loadState"] := by decide
 /-- the steps of `Add`'s write function and of `dag.add`, in the order the model's `putFails` counts their store writes:
     writePayload (1 put), save payload event, markPayloadEventSaved (1), graph.add (addSingle: clock index + transaction,
     lc_high, head_ref when it changes, tx_num), save transaction event, updateState (IBLT leaf, XOR leaf) -/
